@@ -404,6 +404,18 @@ impl OutputList {
         Self { events: vec![] }
     }
 
+    /// The input events exactly as they were read, for content which must be
+    /// passed through untouched (no attribute, class or whitespace normalisation).
+    pub fn verbatim(input: InputList) -> Self {
+        Self {
+            events: input
+                .events
+                .into_iter()
+                .map(|ev| OutputEvent::Other(ev.event))
+                .collect(),
+        }
+    }
+
     pub fn is_empty(&self) -> bool {
         self.events.is_empty()
     }
